@@ -52,6 +52,9 @@ def build(case):
     for i, (sym, c, j) in enumerate(atoms):
         coords[:, i] = cent[:, c] if sym == 'P' else sat[:, c, j]
     wrapped = coords - np.floor(coords)
+    if case.get('image_shift'):
+        sh = np.array(case['image_shift'], float)  # (T, n_atoms, 3) integer cells: the same atoms given in other periodic images
+        wrapped = wrapped + sh[: wrapped.shape[0], : wrapped.shape[1]]
     symbols = [a[0] for a in atoms]
     # gemdat's ordering: centres in trajectory order; satellites of a centre by ascending satellite index
     cent_list = [a[1] for a in atoms if a[0] == 'P']
@@ -249,6 +252,7 @@ def mol_cases(draw, tier, min_frames=2):
     drift = [[[draw(st.floats(-0.01, 0.01)) for _ in range(3)] for _ in range(Nc)] for _ in range(T)]
     return {'lattice': lat, 'frames': T, 'centres': centres, 'bonds': bonds, 'quats': quats, 'drift': drift,
             'order': draw(st.permutations(list(range(15)))), 'matrix': [[draw(st.floats(-2, 2)) for _ in range(3)] for _ in range(3)],
+            'image_shift': ([[[draw(st.sampled_from([0, 0, 0, 1, -1, 3])) for _ in range(3)] for _ in range(5 * Nc)] for _ in range(T)] if draw(st.integers(0, 3)) == 0 else None),
             'point_group': draw(st.sampled_from(PG)), 'species_kind': draw(st.sampled_from(['Species', 'Element'])), 'normalized': draw(st.booleans())}
 
 
